@@ -16,8 +16,15 @@ def run(ctx, spec):
     for cid, cline in cases.items():
         if cid.startswith("e") and ".v" in cid:
             groups.setdefault(cid.split(".v")[0], []).append(cid)
-    ngroups = equal_groups = 0
+    ngroups = equal_groups = same_flat = diff_flat = 0
     for gid, ids in groups.items():
+        # the hypothesis of C13_spellings_same_vm_results, computed by the Lean driver per spelling: the fingerprint
+        # of the flattened resolved body of the last search command
+        flats = {C.fields(model[c]).get("FLAT", "?").split(",")[-1] for c in ids if model.get(c)}
+        if len(flats) == 1 and "-" not in flats and "?" not in flats:
+            same_flat += 1
+        else:
+            diff_flat += 1
         outs = []
         for cid in sorted(ids):
             parts = cases[cid].split("\t")
@@ -71,7 +78,8 @@ def run(ctx, spec):
                 ctx.violation("failing-input", "the result of the multi-command source is not the concatenation of its commands taken alone with their definitions",
                               dict(case_id=cid, definitions=defs, commands=cmds, text=text.decode("latin1"), whole=full[:400],
                                    parts=[p[:200] for p in pieces]), key=S.case_key(src, text))
-    counters.update(variant_groups=ngroups, variant_groups_equal=equal_groups, concat_cases=nconcat)
+    counters.update(variant_groups=ngroups, variant_groups_equal=equal_groups, concat_cases=nconcat,
+                    variant_groups_with_equal_flattening=same_flat, variant_groups_with_other_flattening=diff_flat)
     ctx.coverage.update(evaluations=counters["evaluations"] + nconcat, distinct_nontrivial=counters["with_matches"],
                         rule="(a) a capture-free body in place / as inline subroutine + calls / as set..to pattern in 6 contexts with "
                              "1-3 references, the three variants must find the same spans on the implementation and each equals the "
@@ -84,7 +92,8 @@ def run(ctx, spec):
 
 PROPS = {"C13": dict(
     lean_modules=["Vore.Props.C13"],
-    theorems=["Vore.C13_relocate_atoms", "Vore.C13_concat", "Vore.C13_sub_transparent", "Vore.C13_call_transparent", "Vore.C13_global_transparent", "Vore.C13_vm_follows_spec"],
+    theorems=["Vore.C13_relocate_atoms", "Vore.C13_concat", "Vore.C13_sub_transparent", "Vore.C13_call_transparent", "Vore.C13_global_transparent", "Vore.C13_vm_follows_spec",
+              "Vore.C13_transparent_in_context", "Vore.C13_same_flattening_same_matches", "Vore.C13_spellings_same_vm_results"],
     run=run,
     manifest=dict(
         text="Proved in Lean: the result of a multi-command program is the concatenation of its commands' results "
@@ -95,9 +104,15 @@ PROPS = {"C13": dict(
              "subroutine node matches exactly what its body matches in place, a call exactly what the target's body matches "
              "at the point of reference, a global pattern its body then its predicate (C13_sub_transparent, "
              "C13_call_transparent, C13_global_transparent), and by the subroutine-aware simulation (C01 stage 2) two "
-             "spellings with the same specification have the same VM results (C13_vm_follows_spec). PARTIAL: the equation "
-             "`spec(ctx[B]) = spec(ctx[{B}=s .. s]) = spec(set s to pattern B; ctx[s])` for arbitrary contexts is not proved "
-             "as one theorem; it is decided by the metamorphic correspondence: the three spellings in 6 contexts with 1-3 "
+             "spellings with the same specification have the same VM results (C13_vm_follows_spec). In EVERY context "
+             "(C13_transparent_in_context): matching with calls nested at most cf deep is, as a function of the data and both "
+             "continuations, the call-free matching of the expression in which every call is replaced by its target's body "
+             "(and predicate) and every {B} = s by B, cf levels deep; hence spellings with the same flattening report the same "
+             "matches (C13_same_flattening_same_matches) and the same VM results under every amount clause whenever the "
+             "specification answers (C13_spellings_same_vm_results; the three spellings of the property flatten to the same "
+             "expression: proved for a concrete instance by rfl, computed by the driver for every generated triple and "
+             "counted in the evidence). PARTIAL: that `in place`, `{B} = s .. s` and `set s to pattern B .. s` ALWAYS flatten "
+             "alike is checked per generated triple, not proved for all B and contexts. Metamorphic correspondence: the three spellings in 6 contexts with 1-3 "
              "references must find the same spans on the implementation, and each equals the VM model and Spec.findAllR "
              "(bytecode of the two-pass generator compared with the real generator's as L4).",
         note="Trusted: Lean kernel; Gen model (first reference inlines a relocated copy, later ones call it) by correspondence.",
